@@ -82,6 +82,9 @@ pub struct Case {
     /// a position command between the last go and ucinewgame (collects the artifact)
     pub position_before_newgame: bool,
     pub extra_depth: u8,
+    /// the new game's position is set BEFORE ucinewgame; after it only go is sent
+    #[serde(default)]
+    pub go_without_position: bool,
 }
 
 const UNRELATED: [&str; 4] = [
@@ -93,8 +96,14 @@ const UNRELATED: [&str; 4] = [
 
 /// (last reported score in centipawns, bestmove text) of `position fen P` + `go depth d`
 fn ask(u: &mut Uci, p: &Pos, depth: u32) -> Result<(Option<f64>, Option<String>), String> {
+    ask_with(u, p, depth, true)
+}
+
+fn ask_with(u: &mut Uci, p: &Pos, depth: u32, send_position: bool) -> Result<(Option<f64>, Option<String>), String> {
     let mark = u.log.len();
-    u.send(&format!("position fen {}", p.fen()));
+    if send_position {
+        u.send(&format!("position fen {}", p.fen()));
+    }
     // with an explicit, generous movetime: otherwise the engine's default time limit (4 s) may end the
     // search before the depth is reached on a loaded machine (allocating the memory alone can take seconds),
     // and a shallower answer would be mistaken for a difference caused by the previous game
@@ -141,8 +150,8 @@ impl Prop for NewGame {
             prop_oneof![Just(After::WaitBestMove), Just(After::Stop), Just(After::Nothing)],
         )
             .prop_map(|(which, pick, depth, after)| PrefixStep { which, pick, depth, after });
-        (any::<u32>(), any::<bool>(), prop::collection::vec(step, 1..=5), any::<bool>(), 0u8..=1)
-            .prop_map(|(target, mirror, prefix, position_before_newgame, extra_depth)| Case { target, mirror, prefix, position_before_newgame, extra_depth })
+        (any::<u32>(), any::<bool>(), prop::collection::vec(step, 1..=5), any::<bool>(), 0u8..=1, prop::bool::weighted(0.3))
+            .prop_map(|(target, mirror, prefix, position_before_newgame, extra_depth, go_without_position)| Case { target, mirror, prefix, position_before_newgame, extra_depth, go_without_position })
             .boxed()
     }
     fn test(&self, _: &Ctx, case: &Case, loc: &mut Local) -> Result<(), String> {
@@ -206,8 +215,13 @@ impl Prop for NewGame {
                 After::Nothing => {}
             }
         }
-        if case.position_before_newgame {
-            u.send("position startpos");
+        if case.position_before_newgame || case.go_without_position {
+            // (a position command collects the artifact of a running search)
+            if case.go_without_position {
+                u.send(&format!("position fen {}", p.fen()));
+            } else {
+                u.send("position startpos");
+            }
             if last_was_succ_go {
                 searched_succ_and_collected = true;
             }
@@ -217,8 +231,11 @@ impl Prop for NewGame {
         if u.wait_out(Duration::from_secs(60), "readyok").is_none() {
             return Err(format!("isready after ucinewgame was not answered\n{}", u.transcript()));
         }
-        let (score, best) = ask(&mut u, &p, depth)?;
+        let (score, best) = ask_with(&mut u, &p, depth, !case.go_without_position)?;
         loc.eval();
+        if case.go_without_position {
+            loc.class("go_right_after_ucinewgame_position_set_before");
+        }
         if !(score.map(|s| s >= 10_000.0).unwrap_or(false) && best.as_deref() == Some(m.lan().as_str())) {
             return Err(format!(
                 "after ucinewgame, 'go depth {}' on '{}' reports score cp {:?} and bestmove {:?}; a freshly started process reports {:?} and {:?} (mate in {} plies only by {}). Positions searched before ucinewgame still influence the answer.\n{}",
@@ -434,7 +451,7 @@ pub fn plan(ctx: &Ctx) -> Plan {
                targets, whose recorded successor is a mated root). Session: 1-5 x (position fen X, go depth 1-3, then \
                wait for bestmove / stop / nothing) with X among succ(P,m) (the position whose recording would hide the \
                mate), other successors of P, P itself and unrelated positions, optionally another position command, then \
-               ucinewgame, isready, position fen P, go depth n or n+1 (sent with a one-hour movetime so that the engine's default time limit cannot cut the search short on a loaded machine). The answer must be score cp >= 10000 and bestmove \
+               ucinewgame, isready, position fen P (in three cases out of ten sent BEFORE ucinewgame instead), go depth n or n+1 (sent with a one-hour movetime so that the engine's default time limit cannot cut the search short on a loaded machine). The answer must be score cp >= 10000 and bestmove \
                m, exactly what a freshly started control process answers for the same two commands; a case whose control \
                run misses the mate is discarded and counted (that would be C06's business). Non-trivial = distinct \
                sessions in which succ(P,m) was a search root before ucinewgame and that search's artifact had been \
